@@ -8,6 +8,7 @@ input, its `last_buffer` stays complete valid, and its UTF-8 prologue never fail
 import RioModel.Proofs.FilterChain
 import RioModel.Proofs.FilterUtf8
 import RioModel.Proofs.FilterTotal
+import RioModel.Proofs.FilterText
 set_option linter.unusedSimpArgs false
 set_option linter.unusedVariables false
 
@@ -303,6 +304,181 @@ theorem filterHtml_total_of_V (s : HtmlSt) (x : Bytes) (hs : HV s) (hlast : V s.
   subst hf1
   simp only
   exact V_append (V_append hheld hrest) V_nil
+
+end
+
+/-! ### chains: only the first html stage can fail inside `do_filter` -/
+
+variable {D E : Type}
+
+/-- a stage downstream of an html stage: valid values and buffers, and a complete valid `last_buffer` -/
+def DStage : Stage D E → Prop
+  | .html s => HV s ∧ V s.last
+  | .text s => V s.content
+  | _ => False
+
+def Down (items : List (Stage D E)) : Prop := ∀ st ∈ items, DStage st
+
+/-- text stages, then an html stage, then downstream stages — or text stages only -/
+def Shape (items : List (Stage D E)) : Prop :=
+  AllText items ∨ ∃ pre h post, items = pre ++ .html h :: post ∧ AllText pre ∧ HV h ∧ Down post
+
+section
+variable {tk : Tokenize} (hl : Lossless tk) (hv : TokValid tk) (ev : Bytes → Bytes → Bool) (codec : Codec D E)
+include hl hv
+
+theorem Stage.filter_down (st : Stage D E) (x : Bytes) (hd : DStage st) (hx : V x) :
+    ∃ st' o, st.filter tk ev codec x = some (st', o) ∧ DStage st' ∧ V o := by
+  cases st with
+  | html s =>
+    obtain ⟨s', o, h1, h2, h3, h4⟩ := filterHtml_total_of_V hl hv ev s x hd.1 hd.2 hx
+    exact ⟨.html s', o, by simp [Stage.filter, h1], ⟨h2, h3⟩, h4⟩
+  | text s =>
+    refine ⟨.text (filterText s x).1, (filterText s x).2, rfl, ?_, ?_⟩
+    · show V (filterText s x).1.content
+      rw [(filterText_action s x).2]; exact hd
+    · obtain ⟨a, c, e⟩ := s
+      have hc : V c := hd
+      cases a <;> cases e <;> simp [filterText] <;> first | exact hx | exact V_nil | exact hc | exact V_append hc hx
+  | decode d => exact absurd hd (by simp [DStage])
+  | encode e => exact absurd hd (by simp [DStage])
+
+theorem doFilter_down : ∀ (items : List (Stage D E)) (x : Bytes), Down items → V x →
+    ∃ items' out, doFilter tk ev codec items x = (items', some out) ∧ Down items' ∧ V out
+  | [], x, _, hx => ⟨[], x, rfl, fun _ h => by simp at h, hx⟩
+  | st :: rest, x, hd, hx => by
+    obtain ⟨st', o, h1, h2, h3⟩ := Stage.filter_down hl hv ev codec st x (hd st (by simp)) hx
+    rw [doFilter, h1]
+    simp only
+    have hrest : Down rest := fun s hs => hd s (by simp [hs])
+    by_cases hemp : o.isEmpty = true
+    · rw [if_pos hemp]
+      refine ⟨st' :: rest, o, rfl, ?_, h3⟩
+      intro s hs; simp at hs; rcases hs with rfl | hs
+      · exact h2
+      · exact hrest s hs
+    · rw [if_neg hemp]
+      obtain ⟨rest', out, r1, r2, r3⟩ := doFilter_down rest o hrest h3
+      rw [r1]
+      refine ⟨st' :: rest', out, rfl, ?_, r3⟩
+      intro s hs; simp at hs; rcases hs with rfl | hs
+      · exact h2
+      · exact r2 s hs
+
+/-- one call of `do_filter` on `pre ++ html h :: post` (text stages, an html stage, downstream stages) -/
+theorem doFilter_shape : ∀ (pre : List (Stage D E)) (h : HtmlSt) (post : List (Stage D E)) (x : Bytes),
+    AllText pre → HV h → Down post →
+    (∃ pre' h' post' out, doFilter tk ev codec (pre ++ .html h :: post) x = (pre' ++ .html h' :: post', some out) ∧
+        AllText pre' ∧ HV h' ∧ Down post') ∨
+    (∃ pre', doFilter tk ev codec (pre ++ .html h :: post) x = (pre' ++ .html h :: post, none) ∧
+        AllText pre' ∧ pre'.map (stageRel (D := D) (E := E)) = pre.map stageRel)
+  | [], h, post, x, _, hh, hpost => by
+    simp only [List.nil_append]
+    rw [doFilter]
+    cases hf : filterHtml tk ev h x with
+    | none =>
+      right
+      exact ⟨[], by simp [Stage.filter, hf], fun _ h => by simp at h, rfl⟩
+    | some r =>
+      obtain ⟨h', o⟩ := r
+      obtain ⟨v1, v2⟩ := filterHtml_V hl hv ev h h' x o hh hf
+      left
+      simp only [Stage.filter, hf, Option.map_some]
+      by_cases hemp : o.isEmpty = true
+      · rw [if_pos hemp]
+        exact ⟨[], h', post, o, rfl, fun _ h => by simp at h, v1, hpost⟩
+      · rw [if_neg hemp]
+        obtain ⟨post', out, r1, r2, r3⟩ := doFilter_down hl hv ev codec post o hpost v2
+        rw [r1]
+        exact ⟨[], h', post', out, rfl, fun _ h => by simp at h, v1, r2⟩
+  | st :: pre, h, post, x, hpre, hh, hpost => by
+    obtain ⟨s, rfl⟩ := hpre st (by simp)
+    have hpre' : AllText pre := fun st h => hpre st (by simp [h])
+    simp only [List.cons_append]
+    rw [doFilter]
+    simp only [Stage.filter]
+    by_cases hemp : (filterText s x).2.isEmpty = true
+    · rw [if_pos hemp]
+      left
+      refine ⟨.text (filterText s x).1 :: pre, h, post, (filterText s x).2, rfl, ?_, hh, hpost⟩
+      intro st hst; simp at hst; rcases hst with rfl | hst
+      · exact ⟨_, rfl⟩
+      · exact hpre' st hst
+    · rw [if_neg hemp]
+      rcases doFilter_shape pre h post (filterText s x).2 hpre' hh hpost with
+        ⟨pre', h', post', out, r1, r2, r3, r4⟩ | ⟨pre', r1, r2, r3⟩
+      · left
+        rw [r1]
+        refine ⟨.text (filterText s x).1 :: pre', h', post', out, rfl, ?_, r3, r4⟩
+        intro st hst; simp at hst; rcases hst with rfl | hst
+        · exact ⟨_, rfl⟩
+        · exact r2 st hst
+      · right
+        rw [r1]
+        refine ⟨.text (filterText s x).1 :: pre', rfl, ?_, ?_⟩
+        · intro st hst; simp at hst; rcases hst with rfl | hst
+          · exact ⟨_, rfl⟩
+          · exact r2 st hst
+        · simp [stageRel, textRel_filter, r3]
+
+omit hl hv in
+/-- text stages hold nothing: replacing them by text stages with the same relations keeps the invariant -/
+theorem Inv_text_prefix : ∀ (pre pre' : List (Stage D E)) (rest : List (Stage D E)) (c e : Bytes),
+    AllText pre → AllText pre' → pre'.map (stageRel (D := D) (E := E)) = pre.map stageRel →
+    Inv (pre ++ rest) c e → Inv (pre' ++ rest) c e
+  | [], [], rest, c, e, _, _, _, h => h
+  | [], _ :: _, rest, c, e, _, _, hm, h => by simp at hm
+  | _ :: _, [], rest, c, e, _, _, hm, h => by simp at hm
+  | st :: pre, st' :: pre', rest, c, e, h1, h2, hm, h => by
+    obtain ⟨s, rfl⟩ := h1 st (by simp)
+    obtain ⟨s', rfl⟩ := h2 st' (by simp)
+    simp only [List.map_cons, List.cons.injEq] at hm
+    obtain ⟨m, i1, i2⟩ := h
+    refine ⟨m, ?_, Inv_text_prefix pre pre' rest m e (fun st h => h1 st (by simp [h])) (fun st h => h2 st (by simp [h])) hm.2 i2⟩
+    rw [hm.1]
+    simpa [held] using i1
+
+/-- **`Shape` makes a failure inside `do_filter` harmless**: the failing stage is the first html stage, the stages
+before it are text stages. -/
+theorem errSafe_shape : ErrSafe tk ev codec (Shape (D := D) (E := E)) := by
+  constructor
+  · intro items items' x out hp hok hes hd
+    rcases hes with hall | ⟨pre, h, post, rfl, h1, h2, h3⟩
+    · obtain ⟨i', o', e1, e2, _⟩ := doFilter_text tk ev codec items x hall
+      rw [e1] at hd
+      injection hd with hd1 _
+      subst hd1
+      exact Or.inl e2
+    · rcases doFilter_shape hl hv ev codec pre h post x h1 h2 h3 with
+        ⟨pre', h', post', out', r1, r2, r3, r4⟩ | ⟨pre', r1, _, _⟩
+      · rw [r1] at hd
+        injection hd with hd1 _
+        subst hd1
+        exact Or.inr ⟨pre', h', post', rfl, r2, r3, r4⟩
+      · rw [r1] at hd
+        injection hd with _ hd2
+        simp at hd2
+  · intro items items' x c e hp hok hes hinv hd
+    rcases hes with hall | ⟨pre, h, post, rfl, h1, h2, h3⟩
+    · obtain ⟨i', o', e1, _, _⟩ := doFilter_text tk ev codec items x hall
+      rw [e1] at hd
+      injection hd with _ hd2
+      simp at hd2
+    · rcases doFilter_shape hl hv ev codec pre h post x h1 h2 h3 with
+        ⟨pre', h', post', out', r1, _, _, _⟩ | ⟨pre', r1, r2, r3⟩
+      · rw [r1] at hd
+        injection hd with _ hd2
+        simp at hd2
+      · rw [r1] at hd
+        injection hd with hd1 _
+        subst hd1
+        refine ⟨?_, by simp [r3], Inv_text_prefix pre pre' _ c e h1 r2 r3 hinv⟩
+        intro st hst
+        simp only [List.mem_append, List.mem_cons] at hst
+        rcases hst with hst | rfl | hst
+        · obtain ⟨s, rfl⟩ := r2 st hst; rfl
+        · rfl
+        · exact hp st (by simp [hst])
 
 end
 
